@@ -125,6 +125,17 @@ Supported subset
               calls and raise statements is skipped (`message_names`); `x in (<str constants>)`;
               loops that may raise (`loop_raise`): the fold carries an option of the break / continue state
               (None: an exception left the loop and the function), partial operations are allowed in the body.
+              closures of module-level functions that return a lambda (`use_lambdas`): `g = f(args)` binds no Gallina
+              value - g stands for the uncurried translation of f applied to the arguments (evaluated and named at
+              that point); g(x) is that applied to x, g handed on as a function is fun x => that.  None of the
+              translation means "f(args) raised" when it comes from the statements before `return lambda` (the
+              creation is then guarded by one application to a witness argument: the lambda's own body cannot
+              raise) and "g is None, g(x) raised" when control fell off the end of f; a function with both is
+              refused.  f(a, **d): every key of d must name a parameter not given otherwise, a parameter d lacks
+              takes its None default.  An argument for a parameter the callee's spec leaves untyped must be a
+              constant or a plain name.  s.ljust(w, "<char>").  `for x in <declared item list>: x.value = e`
+              (`elem_lists`): the list becomes the list of the changed items (only unit / value / descr, from
+              expressions that cannot raise).
   refused     a translated name that is bound a second time in its module / class (or assigned through
               Class.name / setattr / global) is refused: the translation would not be what runs.
   fragments   BlockTr (a block of a big method from an anchor statement to the end of its statement list, or its
@@ -276,6 +287,7 @@ Arguments dyn_of_int {V}. Arguments dyn_of_str {V}. Arguments dyn_str {V}.
 Definition pyo_llen {A : Type} (l : list A) : Z := Z.of_nat (List.length l).
 Definition pyo_str_mul (s : list N) (n : Z) : list N := List.concat (List.repeat s (Z.to_nat n)).
 Definition pyo_ljust (s : list N) (w : Z) : list N := s ++ List.repeat 32 (Z.to_nat (w - pyo_len s)).
+Definition pyo_ljust_fill (s : list N) (w : Z) (c : N) : list N := s ++ List.repeat c (Z.to_nat (w - pyo_len s)).
 Definition pyo_split_first (sep s : list N) : list N :=
   match find sep s with Some i => firstn i s | None => s end.
 Definition pyo_max (l : list Z) : option Z :=
@@ -513,6 +525,7 @@ PARSER_ATTRS = ("func", "section_name2", "default_order", "orders")
 ITEM_ATTRS = {"mnemonic": STR, "original_mnemonic": STR, "unit": STR, "value": DYN, "descr": STR}
 KEYS_FIELDS = ("name", "unit", "value", "descr")
 REGISTRY = {}        # qualified python name -> how a translated function is called from another one
+LAMBDAS = {}         # module-level functions that return a lambda (translated uncurried): how a closure of them is used
 
 
 def same_ast(node, src):
@@ -646,6 +659,11 @@ class Tr:
             if same_ast(n, src):
                 # (code, type) or (code, type, the exception class when code is an option)
                 return E(ce[0], ce[1]) if len(ce) == 2 else E(ce[0], ce[1], True, exc=ce[2])
+        el = self.elem_list_of(n) if isinstance(n, (ast.Attribute, ast.Call)) or (isinstance(n, ast.Name) and n.id not in env) else None
+        if el is not None:
+            if env.get(el) != LIST(ITEM):
+                self.err(n, "%s is not available here" % el)
+            return E(self.var(el), LIST(ITEM))
         mc = self.spec.get("module_consts", {})
         if isinstance(n, ast.Attribute) and isinstance(n.value, ast.Name) and n.value.id not in env and ast.unparse(n) in mc:
             # a module-level constant of another lasio module, rendered from its source (module_constant)
@@ -655,6 +673,8 @@ class Tr:
                 self.err(n, "unknown name %r" % n.id)
             if env[n.id] is None:
                 self.err(n, "name %r may be undefined here" % n.id)
+            if is_type(env[n.id], "closure"):
+                return E("<closure %s>" % n.id, env[n.id])       # only coerce() to a function type gives it a value
             return E(self.var(n.id), env[n.id])
         if isinstance(n, ast.Attribute):
             if isinstance(n.value, ast.Name) and n.value.id == "self" and ("self" not in env or n.attr in self.spec.get("self_attrs", {})):
@@ -1275,6 +1295,18 @@ class Tr:
                 self.err(n, "%s(...) may raise: only translated as the sole statement of a try" % fsrc)
             return self.oracle(n, env)
         if isinstance(f, ast.Name):
+            if f.id in env and is_type(env[f.id], "closure"):
+                _, head, ltys, rty, raises_at = env[f.id]
+                if len(n.args) != len(ltys):
+                    self.err(n, "arity of %s" % f.id)
+                args = [self.coerce(self.expr(a, env), t, n) for a, t in zip(n.args, ltys)]
+                build = lambda c: "%s %s" % (head, " ".join("(%s)" % x for x in c))
+                if raises_at == "call":
+                    return self.partial_op(args, build, rty, exc="TypeError")        # the closure is None
+                if raises_at == "creation":
+                    # the creation was guarded: the application is Some (the default is never used)
+                    return self.strict(args, lambda c: "match %s with Some r_ => r_ | None => %s end" % (build(c), self.default_of(rty, n)), rty)
+                return self.strict(args, build, rty)
             if f.id in env:
                 fty = env[f.id]
                 if not is_type(fty, "func"):
@@ -1284,7 +1316,20 @@ class Tr:
                 args = [self.coerce(self.expr(a, env), t, n) for a, t in zip(n.args, fty[1])]
                 return self.strict(args, lambda c: "(%s %s)" % (self.var(f.id), " ".join("(%s)" % x for x in c)), fty[2])
             if f.id in REGISTRY and REGISTRY[f.id].get("file") == self.spec["file"]:
-                # another module-level function of the same module, translated earlier
+                # another module-level function of the same module, translated earlier; an argument for a parameter
+                # the callee's spec leaves untyped (the callee never reads it) must be a constant or a plain name
+                allp = REGISTRY[f.id].get("allp", [])
+                if any(t is None for _, t in allp):
+                    if len(n.args) != len(allp):
+                        self.err(n, "arity of %s" % f.id)
+                    kept = []
+                    for a, (pn, t) in zip(n.args, allp):
+                        if t is not None:
+                            kept.append(a)
+                        elif not (isinstance(a, ast.Constant) or (isinstance(a, ast.Name) and env.get(a.id) is not None)
+                                  or any(same_ast(a, src) for src in self.spec.get("const_exprs", {}))):
+                            self.err(n, "argument for the unread parameter %s of %s" % (pn, f.id))
+                    return self.call_registered(f.id, [self.expr(a, env) for a in kept], n)
                 return self.call_registered(f.id, [self.expr(a, env) for a in n.args], n)
             if f.id == "len" and len(n.args) == 1 and isinstance(n.args[0], ast.Call) and isinstance(n.args[0].func, ast.Name) \
                     and n.args[0].func.id == "set" and "set" not in env and len(n.args[0].args) == 1 and not n.args[0].keywords:
@@ -1445,6 +1490,8 @@ class Tr:
             return self.strict([r, args[0]], lambda c: "pyo_rjust (%s) (%s)" % (c[0], c[1]), STR)
         if m == "ljust" and tys == [INT]:
             return self.strict([r, args[0]], lambda c: "pyo_ljust (%s) (%s)" % (c[0], c[1]), STR)
+        if m == "ljust" and tys == [INT, STR] and isinstance(args[1].const, str) and len(args[1].const) == 1:
+            return self.strict([r, args[0]], lambda c: "pyo_ljust_fill (%s) (%s) %d" % (c[0], c[1], ord(args[1].const)), STR)
         self.err(n, "unsupported method .%s(%s)" % (m, ", ".join(map(str, tys))))
 
     def is_self_call(self, n, env):
@@ -1537,6 +1584,9 @@ class Tr:
                 self.assigned(s.body, acc)
                 self.assigned(s.orelse, acc)
             elif isinstance(s, ast.For):
+                lname = self.elem_list_of(s.iter)
+                if lname is not None and any(isinstance(t, ast.Attribute) for st in s.body if isinstance(st, ast.Assign) for t in st.targets):
+                    add(lname)                   # the items of the list are changed in place
                 target(s.target)
                 self.assigned(s.body, acc)
                 self.assigned(s.orelse, acc)
@@ -1552,10 +1602,22 @@ class Tr:
                 add(s.name)
         return acc
 
+    def default_of(self, ty, node):
+        if ty == STR:
+            return "([] : list N)"
+        self.err(node, "no default value of type %s" % (ty,))
+
     def coerce(self, e, want, node):
         """value of type e.ty stored where `want` is expected"""
         if e.ty == want:
             return e
+        if is_type(e.ty, "closure") and is_type(want, "func") and tuple(want[1]) == e.ty[2] and want[2] == e.ty[3] \
+                and e.ty[4] in (None, "creation"):
+            xs = ["x%d_" % i for i in range(len(e.ty[2]))]
+            app = "%s %s" % (e.ty[1], " ".join(xs))
+            if e.ty[4] == "creation":
+                app = "match %s with Some r_ => r_ | None => %s end" % (app, self.default_of(e.ty[3], node))
+            return E("(fun %s => %s)" % (" ".join(xs), app), want)
         if want == DYN and not e.partial:
             self.uses_dyn = True
             if e.ty == INT:
@@ -1943,6 +2005,9 @@ class Tr:
             return pre + go(env2) + post
         if not isinstance(tg, ast.Name):
             self.err(s, "unsupported assignment target")
+        if isinstance(v, ast.Call) and isinstance(v.func, ast.Name) and v.func.id not in env and v.func.id in LAMBDAS \
+                and LAMBDAS[v.func.id]["file"] == self.spec["file"] and self.spec.get("use_lambdas"):
+            return self.assign_closure(tg.id, v, env, go, s)
         if self.is_readline(v) and env.get(v.func.value.id) == FILE:
             # name = f.readline(): the next line ("" at the end of the file); f moves on by one line
             f = v.func.value.id
@@ -1975,6 +2040,80 @@ class Tr:
         if isinstance(v, ast.Subscript) and isinstance(v.value, ast.Name) and isinstance(v.slice, ast.Name) \
                 and env.get(v.value.id) == LIST(ITEM) and env.get(v.slice.id) == INT:
             self.alias[name] = (v.value.id, v.slice.id, [(nm, self.bind_count.get(nm, 0)) for nm in (v.value.id, v.slice.id, name)])
+        return pre + go(env2) + post
+
+    def assign_closure(self, name, call, env, go, s):
+        """name = f(args) for a module-level function f that returns a lambda (translated uncurried, LAMBDAS): the
+        arguments are evaluated now (bound to fresh names); `name` is not a Gallina value but stands for the
+        pending application: name(x) is f's translation applied to the arguments and x, and name handed on as a
+        function is fun x => that.  Where None of the translation means "f(args) raised", the creation is guarded
+        by one application (the lambda's own body cannot raise, so None does not depend on x)."""
+        r = LAMBDAS[call.func.id]
+        if r["raises_at"] == "mixed":
+            self.err(s, "%s may raise both when it is called and when its result is called" % call.func.id)
+        for b in r["extra"]:
+            if b not in self.spec.get("extra_binders", []):
+                self.err(s, "%s needs %s" % (call.func.id, b[1]))
+        given = dict(zip(r["pnames"], call.args))
+        if len(call.args) > len(r["pnames"]):
+            self.err(s, "too many arguments for %s" % call.func.id)
+        star = None
+        for kw in call.keywords:
+            if kw.arg is None:
+                if star is not None:
+                    self.err(s, "two ** arguments")
+                star = kw.value
+            elif kw.arg not in r["pnames"] or kw.arg in given:
+                self.err(s, "keyword argument %s of %s" % (kw.arg, call.func.id))
+            else:
+                given[kw.arg] = kw.value
+        pre, post, temps = "", "", []
+        rest = [pn for pn in r["pnames"] if pn not in given]
+        d = None
+        if star is not None:
+            # f(..., **d): every key of d must be a parameter not given otherwise (else TypeError); a parameter
+            # that d lacks takes its default
+            d = self.expr(star, env)
+            if not is_type(d.ty, "dict") or d.ty[1] != STR or d.partial:
+                self.err(s, "** of %s" % (d.ty,))
+            self.need_partial(s)
+            td = self.fresh()
+            pre += "let %s := %s in\nif forallb (fun kv_ : %s => pyo_in_list (fst kv_) [%s]) %s then\n" % (
+                td, d.code, self.ctype(TUPLE(d.ty[1], d.ty[2]), s), "; ".join(cstr(pn) for pn in rest), td)
+            post = "\nelse None" + post
+        for pn, t in zip(r["pnames"], r["args"]):
+            tmp = self.fresh()
+            if pn in given:
+                e = self.expr_want(given[pn], env, t)
+                if e.partial:
+                    self.err(s, "argument of %s may raise" % call.func.id)
+                code = e.code
+            elif d is not None and pn in r["none_defaults"] and is_type(t, "opt") and d.ty[2] == t:
+                code = "pyo_dict_get %s %s None" % (td, cstr(pn))
+            elif pn in r["none_defaults"] and is_type(t, "opt"):
+                code = "None"
+            elif pn in r["default_codes"]:
+                code = r["default_codes"][pn]
+            else:
+                self.err(s, "argument %s of %s is not given" % (pn, call.func.id))
+            pre += "let %s : %s := %s in\n" % (tmp, self.ctype(t, s), code)
+            temps.append(tmp)
+        head = " ".join([r["coq"]] + (["ops"] if r["ops"] else []) + [b[1] for b in r["extra"]] + temps)
+        if r["ops"]:
+            self.uses_dyn = True
+        if r["raises_at"] == "creation":
+            self.need_partial(s)
+            dummies = []
+            for _, t in r["lam"]:
+                if t != STR:
+                    self.err(s, "no witness argument of type %s" % (t,))
+                dummies.append("[]")
+            pre += "obind (%s %s) (fun _ =>\n" % (head, " ".join(dummies))
+            post = ")" + post
+        self.bind_count[name] = self.bind_count.get(name, 0) + 1
+        self.alias.pop(name, None)
+        env2 = dict(env)
+        env2[name] = ("closure", head, tuple(t for _, t in r["lam"]), r["ret"], r["raises_at"])
         return pre + go(env2) + post
 
     def none_idiom(self, s, env):
@@ -2041,11 +2180,62 @@ class Tr:
         env2 = dict(env)
         for p, t in decl:
             env2[p] = t
-        return self.ret(self.expr(lam.body, env2), lam)
+        e = self.expr(lam.body, env2)
+        if e.partial:
+            self.lambda_partial = True
+        return self.ret(e, lam)
+
+    def elem_list_of(self, it_node):
+        for src, name in self.spec.get("elem_lists", {}).items():
+            if same_ast(it_node, src):
+                return name
+        return None
+
+    def for_elements(self, s, env, go, lname):
+        """for x in <item list L>: x.attr = e ...  -- the items of L are changed in place: L becomes the list of the
+        changed items.  The body may only assign attributes of x (not the mnemonic) from expressions that cannot
+        raise, and log."""
+        if not (isinstance(s.target, ast.Name) and env.get(lname) == LIST(ITEM)) or s.orelse:
+            self.err(s, "unsupported loop over the items of %s" % lname)
+        x = s.target.id
+        if x in env and env[x] is not None:
+            self.err(s, "the loop variable %s is also a variable of the enclosing code" % x)
+        env2 = dict(env)
+        env2[x] = ITEM
+        code = ""
+        for st in s.body:
+            if self.is_logger_call(st):
+                continue
+            if not (isinstance(st, ast.Assign) and len(st.targets) == 1 and isinstance(st.targets[0], ast.Attribute)
+                    and isinstance(st.targets[0].value, ast.Name) and st.targets[0].value.id == x
+                    and st.targets[0].attr in ("unit", "value", "descr")):
+                self.err(st, "only x.unit / x.value / x.descr = e in a loop that changes the items of %s" % lname)
+            attr = st.targets[0].attr
+            self.pmode.append(False)
+            self.in_try += 1
+            try:
+                e = self.coerce(self.expr(st.value, env2), ITEM_ATTRS[attr], st)
+            finally:
+                self.in_try -= 1
+                self.pmode.pop()
+            if e.partial:
+                self.err(st, "the new value of x.%s may raise" % attr)
+            fields = ["it_%s %s" % (a, self.var(x)) for a in ("mnemonic", "original_mnemonic", "unit", "value", "descr")]
+            fields[("mnemonic", "original_mnemonic", "unit", "value", "descr").index(attr)] = "(%s)" % e.code
+            code += "let %s : %s := mk_py_item (%s) (%s) (%s) (%s) (%s) in\n" % ((self.var(x), self.ctype(ITEM, s)) + tuple(
+                f if f.startswith("(") else f for f in fields))
+        new = E("List.map (fun %s : %s =>\n%s%s) %s" % (self.var(x), self.ctype(ITEM, s), indent(code), "  " + self.var(x), self.var(lname)), LIST(ITEM))
+        pre, post, env3 = self.bind(lname, new, env, s)
+        env3 = dict(env3)
+        env3[x] = None
+        return pre + go(env3) + post
 
     def for_stmt(self, s, env, go):
         if self.handlers:
             self.err(s, "a loop inside try/except")
+        lname = self.elem_list_of(s.iter)
+        if lname is not None and any(isinstance(t, ast.Attribute) for st in s.body if isinstance(st, ast.Assign) for t in st.targets):
+            return self.for_elements(s, env, go, lname)
         breaks = any(isinstance(x, (ast.Break, ast.Continue)) for b in s.body for x in ast.walk(b))
         raises = bool(self.spec.get("loop_raise")) and (breaks or any(isinstance(x, ast.Raise) for b in s.body for x in ast.walk(b)))
         for x in ast.walk(s):
@@ -2402,12 +2592,16 @@ class Tr:
         def off_end(env2):
             if spec.get("returns_lambda"):
                 # the function returns None instead of a function: calling that raises TypeError
+                self.fell_off = True
+                if getattr(self, "probe_prefix", False):
+                    return "<FELL>"
                 self.need_partial(fn)
                 return "None"
             self.err(fn, "control can fall off the end of the function (returns None)")
         for partial in (False, True):
             self.reset()
             self.pmode = [partial]
+            self.fell_off = self.lambda_partial = False
             try:
                 code = self.stmts(body, dict(env0), off_end)
                 break
@@ -2479,9 +2673,36 @@ class Tr:
                 file=spec["file"] if not spec.get("cls") and not spec.get("translator") else None,
                 mutator=bool(spec.get("mutator")),
                 pnames=[p for p, t in spec["params"] if t is not None],
+                allp=[(p, t) for p, t in spec["params"] if not (spec.get("cls") and p == "self" and t is None)],
                 none_defaults=[a.arg for a, d in zip(fn.args.args[len(fn.args.args) - len(fn.args.defaults):], fn.args.defaults)
                                if isinstance(d, ast.Constant) and d.value is None],
                 self_attrs=list(spec.get("self_attrs", {})))
+        if spec.get("returns_lambda") and not spec.get("cls") and not spec.get("translator") and not spec.get("kwarg") \
+                and not spec.get("opaque_tests"):
+            # how `g = f(args)` and then `g(x)` / passing g on are translated by other functions of the module:
+            # None of the uncurried function means "f(args) raised" (creation) when it comes from the statements
+            # before the `return lambda`, "g(x) raised" (call: g is None) when control fell off the end
+            fell, lam_partial = self.fell_off, self.lambda_partial
+            mixed = False
+            if self.fn_partial and fell:
+                self.reset()
+                self.pmode = [False]
+                self.probe_prefix = True
+                try:
+                    self.stmts(body, dict(env0), off_end)
+                except NeedPartial:
+                    mixed = True            # both the prefix and falling off the end
+                finally:
+                    self.probe_prefix = False
+            a = fn.args
+            LAMBDAS[spec["py"]] = dict(
+                coq=spec["coq"], pnames=[p for p, _ in spec["params"]], args=[t for _, t in spec["params"]],
+                lam=list(spec["returns_lambda"]), ret=spec["ret"], partial=self.fn_partial, ops=needs_ops,
+                extra=list(spec.get("extra_binders", [])), file=spec["file"],
+                raises_at=None if not self.fn_partial else ("mixed" if mixed or lam_partial else "call" if fell else "creation"),
+                none_defaults=[x.arg for x, d in zip(a.args[len(a.args) - len(a.defaults):], a.defaults)
+                               if isinstance(d, ast.Constant) and d.value is None],
+                default_codes=dict(spec.get("default_codes", {})))
         return "\n".join(out)
 
     def body_of(self, fn):
@@ -2758,7 +2979,7 @@ class BlockTr(Tr):
             frag = frag[:self.spec["length"]]       # ... or only the first statements of it
         if "until" in self.spec:
             # ... up to (not including) the first statement that assigns the `until` variable
-            cut = [i for i, st in enumerate(frag) if self.spec["until"] in self.assigned([st], [])]
+            cut = [i for i, st in enumerate(frag) if self.spec["until"] in self.assigned([st], []) and i > 0]
             if not cut:
                 self.err(fn, "no assignment to %s after %s" % (self.spec["until"], self.spec["anchor"]))
             frag = frag[:cut[0]]
@@ -2907,6 +3128,17 @@ SPECS = [
 ]
 SPECS[-1]["translator"] = RouteTr
 
+
+def section_block(coq, table_name, lens, var, length):
+    """one header section of writer.write: the title line, the order function, (the value normalisation loop,) the
+    column widths and the loop that formats the items - `length` statements starting one before the assignment
+    order_func = get_section_order_function(<table_name>, version)"""
+    return dict(py="write", file="writer.py", cls=None, coq=coq, translator=BlockTr, anchor="order_func",
+                anchor_value='get_section_order_function("%s", version)' % table_name, before=1, length=length,
+                result="(%s, lines)" % var, use_lambdas=True, elem_lists={x: var for x in lens},
+                params=[(var, LIST(ITEM)), ("version", VERSION), ("header_width", INT), ("lines", LIST(STR))],
+                ret=TUPLE(LIST(ITEM), LIST(STR)))
+
 NEW_ITEM = """(* HeaderItem(mnemonic, unit, value, descr) / CurveItem(...): what __init__ stores (the session
    mnemonic starts as the translated useful_mnemonic of the original one) *)
 Definition pyo_new_item {V : Type} (m u : list N) (v : V) (d : list N) : py_item V :=
@@ -2925,7 +3157,8 @@ SPECS += [
          params=[("self", ITEM), ("key", STR)], ret=DYN),
     dict(py="get_section_order_function", file="writer.py", cls=None, coq="py_get_section_order_function",
          params=[("section", STR), ("version", VERSION), ("order_definitions", OTABLE)],
-         defaults={"order_definitions": "defaults.ORDER_DEFINITIONS"}, locals={"orders": DICT(STR, STR)},
+         defaults={"order_definitions": "defaults.ORDER_DEFINITIONS"}, default_codes={"order_definitions": "order_definitions"},
+         locals={"orders": DICT(STR, STR)},
          returns_lambda=[("mnemonic", STR)], ret=STR),
     dict(py="get_formatter_function", file="writer.py", cls=None, coq="py_get_formatter_function",
          params=[("order", STR), ("left_width", OPT(INT)), ("middle_width", OPT(INT))],
@@ -3082,6 +3315,10 @@ SPECS += [
     dict(py="get_section_widths", file="writer.py", cls=None, coq="py_get_section_widths",
          params=[("section_name", None), ("items", LIST(ITEM)), ("version", None), ("order_func", FUNC([STR], STR))],
          locals={"section_widths": DICT(STR, OPT(INT)), "middle_widths": LIST(INT)}, ret=DICT(STR, OPT(INT))),
+    section_block("py_write_version_section", "Version", ("version_section_to_write.values()", "version_section_to_write"), "vs_items", 4),
+    section_block("py_write_well_section", "Well", ("las.well.values()", "las.well"), "well_items", 5),
+    section_block("py_write_curves_section", "Curves", ("las.curves",), "curve_items", 4),
+    section_block("py_write_params_section", "Parameter", ("las.params.values()", "las.params"), "param_items", 5),
 ]
 
 
